@@ -8,4 +8,5 @@ CONSTANTS
   MaxReq = 0
   MaxBatch = 0
   Hist = FALSE
+  Deliveries = {"single", "pipelined", "fragmented"}
   SplitReg = FALSE
